@@ -28,16 +28,25 @@ def toInt32 (x : Int) : Int := (x + 2147483648) % 4294967296 - 2147483648
 def minInt32 : Int := -2147483648
 def maxInt32 : Int := 2147483647
 
+/-- Does the text start with a minus sign? -/
+def isNeg : List Char → Bool
+  | '-' :: _ => true
+  | _ => false
+
+/-- The text without its optional sign. -/
+def stripSign : List Char → List Char
+  | '-' :: r => r
+  | '+' :: r => r
+  | s => s
+
 /-- `strconv.Atoi` on a 64-bit platform: optional sign, one or more decimal
     digits, value within int64; anything else is an error. -/
 def atoi (s : List Char) : Option Int :=
-  let neg := match s with | '-' :: _ => true | _ => false
-  let ds := match s with | '-' :: r => r | '+' :: r => r | _ => s
-  if ds.isEmpty || !ds.all isDigit then none
+  if (stripSign s).isEmpty || !(stripSign s).all isDigit then none
+  else if isNeg s then
+    (if natOfDigits (stripSign s) ≤ 9223372036854775808 then some (-(natOfDigits (stripSign s) : Int)) else none)
   else
-    let n := natOfDigits ds
-    if neg then (if n ≤ 9223372036854775808 then some (-(n : Int)) else none)
-    else (if n < 9223372036854775808 then some (n : Int) else none)
+    (if natOfDigits (stripSign s) < 9223372036854775808 then some (natOfDigits (stripSign s) : Int) else none)
 
 /-- Split at every occurrence of `sep` (`strings.Split` with a one-byte separator). -/
 def splitOn (sep : Char) : List Char → List (List Char)
